@@ -30,9 +30,23 @@ def closure_step(a, cell, argname='x'):
                 names[e['i']] = u['name']
                 break
     caps = list(clos.captures)
+    # which scalar captures does one call change?  (hoisted constants such as `last_ix` are not state)
+    probe_st = a.state.copy()
+    probe = CallCtx(it, None, probe_st, None, [], None, None)
+    changed = set()
+    try:
+        mark0 = len(it.sites)
+        it.call_closure(probe, cell, [sym(argname)])
+        del it.sites[mark0:]
+        after0 = it.read(probe.state, cell.root, cell.path)
+        for i, c in enumerate(caps):
+            if isinstance(c, tuple) and after0.captures[i] != c:
+                changed.add(i)
+    except Unsupported:
+        changed = {i for i, c in enumerate(caps) if isinstance(c, tuple)}
     havoced = {}
     for i, c in enumerate(caps):
-        if isinstance(c, tuple):
+        if isinstance(c, tuple) and i in changed:
             s = sym(names.get(i, 'cap%d' % i))
             havoced[i] = (s, c)
             caps[i] = s
@@ -89,8 +103,16 @@ def check(cx):
         else:
             found = prev2[1]
             _, sterm, ivar, P = found
-            want_s = ('stream', 'src', ('view', S, prev, lenS), ('str', 'ref'))
-            if sterm != want_s:
+            evs = [e for e in a.it.events if e['kind'] == 'search' and e.get('found') == found]
+            dom = search_domain(a.it, evs[-1]['base']) if evs else None
+            self_root = a.args[0].root
+            okd = dom is not None and not evs[-1]['rev'] and dom[2] == prev and dom[3] == lenS
+            if okd:
+                try:
+                    okd = isinstance(a.it.read(st2, dom[0], dom[1]), SeqSym) and a.it.read(st2, dom[0], dom[1]).name == 'self.segments'
+                except Unsupported:
+                    okd = False
+            if not okd:
                 probs.append('search domain is %s, expected segments[prev..] scanned forward' % term_str(sterm)[:160])
             idx = ('firstidx', sterm, ivar, P)
             nf = NF()
